@@ -68,6 +68,18 @@ def search():
     out = HTML('<dtml-let a="1"><dtml-var inner></dtml-let>')(inner=inner, b='outer')
     if out != '1/innerdefault':
         return n, dict(source='subtemplate', output=out, expected='1/innerdefault')
+    # ... also when the template invoked by name is the one being rendered (recursion): its defaults go on top again
+    node = HTML('[<dtml-var label><dtml-in kids mapping>(<dtml-var label>)<dtml-var node></dtml-in>]', label='D')
+    n += 1
+    out = node(node=node, kids=[{'label': 'a', 'kids': [{'label': 'a1', 'kids': []}]}, {'label': 'b', 'kids': []}])
+    if out != '[D(a)[D(a1)[D]](b)[D]]':
+        return n, dict(source='recursive subtemplate with defaults', output=out, expected='[D(a)[D(a1)[D]](b)[D]]')
+    ta = HTML('A:<dtml-var v>;<dtml-if go><dtml-var B></dtml-if>', v='Ad')
+    tb = HTML('B:<dtml-var v>;<dtml-let v="\'let\'" go="0"><dtml-var A></dtml-let>', v='Bd')
+    n += 1
+    out = ta(A=ta, B=tb, go=1)
+    if out != 'A:Ad;B:Bd;A:Ad;':
+        return n, dict(source='indirectly recursive subtemplates', output=out, expected='A:Ad;B:Bd;A:Ad;')
     return n, None
 
 
